@@ -584,6 +584,9 @@ private:
     }
 
     char peek() const {
+        if (eof()) {
+            throw std::runtime_error("Unexpected end of JSON input");
+        }
         return input_[pos_];
     }
 
